@@ -416,6 +416,16 @@ def build(scene, state=None, assemble=True, options=None, names=None, extra=None
         B.contacts.append(c)
         add(c)
 
+    # user-defined velocity-level (nonholonomic) constraints, duck-typed like the rolling condition of the
+    # repository's rolling-disc example
+    B.nonholonomic = []
+    for k, nh in enumerate(scene.get("nonholonomic", [])):
+        from .custom import KnifeEdge
+
+        c = KnifeEdge(B.bodies[nh["body"]], nh.get("rB", [0, 0, 0]), nh["n"], name=nm("nonholonomic", k, f"nh{k}"))
+        B.nonholonomic.append(c)
+        add(c)
+
     if extra:
         for c in extra(B):
             add(c)
